@@ -557,6 +557,34 @@ theorem bijTable_lists_coef_support :
     tableMatches 1 4 = true ∧ tableMatches 2 4 = true ∧ tableMatches 3 4 = true := by
   decide +kernel
 
+/-! ### `PureBosonicExt`: the stored table and the expectation branch -/
+
+/-- the table `PureBosonicExt.__init__` stores is the model's table: substituting the table's own values position by position gives
+the table back (the exact tie substitutes *integer* values into the index lists of `bijTable`, which the object must therefore share) -/
+theorem tableWith_self {β : Type} (tab : List (ℕ × ℕ × β)) : tableWith tab (tab.map (·.2.2)) = tab := by
+  unfold tableWith
+  induction tab with
+  | nil => rfl
+  | cons e t ih => simp only [List.map_cons, List.zip_cons_cons, ih]
+
+/-- … and the substitution never changes an index pair -/
+theorem tableWith_indices {α β : Type} (tab : List (ℕ × ℕ × β)) (w : List α) (h : w.length = tab.length) :
+    (tableWith tab w).map (fun e => (e.1, e.2.1)) = tab.map (fun e => (e.1, e.2.1)) := by
+  unfold tableWith
+  induction tab generalizing w with
+  | nil => simp
+  | cons e t ih =>
+    cases w with
+    | nil => simp at h
+    | cons x w => simp only [List.zip_cons_cons, List.map_cons, ih w (by simpa using h)]
+
+/-- **the expectation branch of `PureBosonicExt.forward`**: `dot(dm.view(-1), op.T.reshape(-1))` is `tr(op·ρ_AB)` -/
+theorem expectLoss_eq_trace {R : Type} [CommRing R] (N : ℕ) (op ρ : ℕ → ℕ → R) :
+    expectLoss N op ρ = ∑ y ∈ Finset.range N, ∑ x ∈ Finset.range N, op y x * ρ x y := by
+  simp only [expectLoss, sumRange_eq_sum]
+  rw [Finset.sum_comm]
+  exact Finset.sum_congr rfl fun y _ => Finset.sum_congr rfl fun x _ => mul_comm _ _
+
 /-- non-vacuity of the Dicke hypotheses: `(2,0,1)` is an occupation vector of `(n,d) = (3,3)` with `M = 3` -/
 example : [2, 0, 1] ∈ klist 3 3 ∧ multinomial [2, 0, 1] = 3 ∧ (klist 3 3).length = 10 ∧ cnt 3 3 [2, 0, 1] = 3 := by
   decide +kernel
